@@ -46,6 +46,8 @@ fn imm_grid() -> Vec<i32>
 	let mut g: Vec<i64> = Vec::new();
 	for k in 0..32 { for d in -2..=2 { g.push((1i64 << k) + d); g.push(-(1i64 << k) + d); } }
 	for v in -70..=70 { g.push(v); }
+	// truncation aliases: a small in-range value plus a high bit (a check made after a narrowing cast would accept them)
+	for k in 16..32 { for b in [1i64, 2, 4, 6, 8, 30, 31, 62, 124, 255] { g.push((1i64 << k) + b); g.push(-(1i64 << k) + b); } }
 	for c in [7i64, 31, 32, 62, 124, 254, 255, 256, 508, 1020, 2046, 2048, 4094, 4096, 0x3E, 0x7C, 0xFF, 0x1FC, 0x3FC, 16777214, 16777216]
 	{
 		for d in -4..=4 { g.push(c + d); g.push(-c + d); }
